@@ -9,6 +9,7 @@ ENGINES = ["segment"]
 TREES = ["bitmap", "output", "rangeproof", "kernel"]
 WRONG_FROM = {"output": "kernel", "rangeproof": "output", "kernel": "rangeproof", "bitmap": "kernel"}
 KNOWN_PANIC_SIG = "segment:validate:panic:identifier_out_of_range"
+SHAPES = {}
 
 
 # ------------------------------------------------------------------------------------------------
@@ -79,9 +80,23 @@ def gen_source_states(rng, count, max_leaves):
     """Seeded source states [nl, rm, comp, late] for MMRs above the exhaustive bound: spent leaves at several
     densities, compaction of aligned subtrees (what produces pruned roots) plus scattered leaves, late spends."""
     res = []
+    # odd leaf counts whose single-leaf last peak is spent (at / after the archive header) or compacted away with
+    # nothing else: every segment but the last then has that leaf as (part of) the bagged right-hand side
+    for nl in (5, 7, 9, 13, 21, 33):
+        how = rng.choice(["rm", "late", "comp"])
+        rm = set(l for l in range(nl - 1) if rng.random() < 0.3)
+        late = set()
+        if how == "late":
+            late.add(nl - 1)
+        else:
+            rm.add(nl - 1)
+        comp = set(l for l in rm if l != nl - 1 and rng.random() < 0.4)
+        if how == "comp":
+            comp.add(nl - 1)
+        res.append({"nl": nl, "rm": sorted(rm), "comp": sorted(comp), "late": sorted(late)})
     sizes = [5, 6, 7, 8, 9, 11, 12, 13, 15, 16, 17, 19, 21, 23, 24, 25, 27, 29, 31, 32, 33, 35, 37, 39, 40]
     sizes = [s for s in sizes if s <= max_leaves]
-    for i in range(count):
+    for i in range(max(0, count - len(res))):
         nl = sizes[i % len(sizes)] if i < len(sizes) else rng.choice(sizes)
         dens = rng.choice([0.15, 0.4, 0.7, 0.9, 1.0])
         rm = set(l for l in range(nl) if rng.random() < dens)
@@ -113,7 +128,15 @@ def op_signature(mm):
             return "segment:validate:panic:%s" % kind
         return "segment:validate:%s:spec=%s:real=%s" % (kind, mm["spec"], mm["real"])
     if what == "honest":
-        return "segment:validate:honest:spec=%s:real=%s" % (mm["spec"], mm["real"])
+        if mm["spec"] == "Accept":
+            return "segment:honest:refused:%s" % (mm.get("err") or mm["real"])
+        return "segment:honest:spec=%s:real=%s" % (mm["spec"], mm["real"])
+    if what == "store":
+        return "segment:store:%s" % mm.get("step", "?")
+    if what == "case_panic":
+        return "segment:component:panic"
+    if what in ("from_pmmr_class", "from_pmmr_err", "from_pmmr_panic"):
+        return "segment:from_pmmr:error:spec=%s:real=%s" % (mm["spec"], mm["real"])
     if what.startswith("with_"):
         return "segment:validate_with:%s:real=%s" % (what, mm["real"])
     return "segment:from_pmmr:%s" % what
@@ -130,9 +153,14 @@ def run_component(rep, wd, cases, tag):
         raise ToolError("component replay returned %d results for %d cases" % (len(res), len(cases)))
     checks = 0
     ops = {}
+    per_sig = {}
     for c, r in zip(cases, res):
         checks += r["checks"]
         for mm in r["mismatches"][:3]:
+            # at most two replay files per signature: leave room for the end-to-end findings
+            per_sig[op_signature(mm)] = per_sig.get(op_signature(mm), 0) + 1
+            if per_sig[op_signature(mm)] > 2:
+                continue
             small = {"nl": c["nl"], "rm": c["rm"], "comp": c["comp"], "late": c["late"], "size": c["size"],
                      "segs": [s for s in c["segs"] if s["h"] == mm["seg"]["h"] and s["idx"] == mm["seg"]["idx"]
                               and s["prunable"] == mm["seg"]["prunable"]]}
@@ -166,7 +194,15 @@ def segment_model(rep, wd, thorough, rng):
     cases = [json.loads(x) for x in r.printed("SEGCASE")]
     if len(cases) != r.distinct - 1:
         raise ToolError("MC_Segment emitted %d cases for %d states" % (len(cases), r.distinct - 1))
+    shape = 0
+    for c in cases:
+        last = c["nl"] - 1
+        if c["nl"] % 2 == 1 and c["nl"] > 1 and (last in c["rm"] or last in c["late"]):
+            shape += sum(1 for sg in c["segs"] if sg["prunable"] and sg["ok"] and sg["h"] >= 1 and any(p[0] == "B" for p in sg["proof_ref"]))
+    if shape < 10:
+        raise ToolError("too few segments with a spent single-leaf last peak in their bagged right-hand side (%d)" % shape)
     checks, ops, res = run_component(rep, wd, cases, "a")
+    SHAPES["spent_last_peak_in_rhs"] = shape
     return r, cases, checks, ops, res
 
 
@@ -572,8 +608,12 @@ def run(tier, replay):
         a = s.info["archive"]
         src_info.append({"name": s.name, "blocks": s.info["blocks"], "spends": s.info["spends"], "compacted": s.info["compacted"],
                          "archive_height": a["height"], "output_leaves": a["output_leaves"], "build_s": round(s.wall, 1),
+                         "odd_leaves_last_output_spent_later": s.info.get("shape"),
                          "segments": {t: {"n": a[t]["nseg"], "leaves": a[t]["leaves"], "hashes": a[t]["hashes"],
                                           "complete": a[t]["complete"]} for t in TREES}})
+        for er in a.get("errors", []):
+            rep.violation("pibd:segmenter:%s_segment:error" % er["tree"], {"kind": "e2e", "source": s.params, "scenario": {"name": "canonical", "kind": "pibd", "steps": []}, "error": er},
+                          "the serving node failed to produce an honest segment: %s" % json.dumps(er))
         if not s.info["zip_ok"]:
             rep.violation("archive:txhashset_read:failed", {"kind": "e2e", "source": s.params, "scenario": {"name": "archive", "kind": "archive"}},
                           "txhashset_read failed on the source")
@@ -590,6 +630,10 @@ def run(tier, replay):
         comp = [x for x in src_info if x["compacted"]]
         if comp and all(all(x["segments"]["output"]["complete"]) for x in comp):
             raise ToolError("the compacted source served only complete output segments: compaction did not bite")
+    multi = [x for x in src_info if max(x["segments"][t]["n"] for t in ("output", "rangeproof")) > 1]
+    if multi and not any((x["odd_leaves_last_output_spent_later"] or {}).get("odd") and
+                         (x["odd_leaves_last_output_spent_later"] or {}).get("last_spent_at") for x in multi):
+        raise ToolError("no multi-segment source has an odd output count whose last output is spent after the archive header")
     st = selftest(wd, first_lines[:400]) if first_lines else 0
     if cov["finalised"] == 0:
         raise ToolError("no scenario finalised: vacuous run")
@@ -602,7 +646,7 @@ def run(tier, replay):
         "exhaustive": True,
         "segment_model": {"source_states": len(cases), "tlc_s": round(t_seg, 1), "real_checks": seg_checks,
                           "corruptions_by_kind_dep_verdict": {"%s:dep=%s:valid=%s" % k: n for k, n in sorted(ops.items())},
-                          "depended_on_corruptions_refused": dep_rejected},
+                          "depended_on_corruptions_refused": dep_rejected, "shapes": dict(SHAPES)},
         "desegmenter_model": {"states": r_des.distinct, "transitions": r_des.generated, "tlc_s": round(t_des, 1),
                               "actions": {k: v[0] for k, v in ac.items()}, "mutant_model_violates": True,
                               "bitmap_mmr_size_cases": bm_res},
